@@ -481,29 +481,36 @@ def powM (d : Nat) (U : M α) : Nat → M α
   | 0 => eye
   | n + 1 => mulM d (powM d U n) U
 
-/-- value/gradient pair; multiplication is the product rule used by `PowerGate` -/
+/-- a unitary together with its derivative in ONE parameter; `PowerGate` carries the
+gradient of all parameters as an `(np, d, d)` array and every operation broadcasts over the
+first axis, i.e. acts on each such pair independently -/
 structure UG (α : Type) where
   u : M α
-  g : List (M α)
+  g : M α
 
+/-- `utry @ utrys[i]`, `grad @ utrys[i] + utry @ grads[i]` — the product rule -/
 def UG.mul (d : Nat) (x y : UG α) : UG α :=
-  ⟨mulM d x.u y.u, (x.g.zip y.g).map fun (gx, gy) => addM (mulM d gx y.u) (mulM d x.u gy)⟩
+  ⟨mulM d x.u y.u, addM (mulM d x.g y.u) (mulM d x.u y.g)⟩
 
-/-- binary digits of `n`, least significant first (positions of the set bits) -/
-def bitPositions (n : Nat) : List Nat :=
-  (List.range (n.log2 + 1)).filter fun k => n.testBit k
+/-- `PowerGate.get_unitary_and_grad`, `power > 0`: square-and-multiply.  The code first
+tabulates `sq[k] = x^(2^k)` (`utrys`, `grads`) up to the highest set bit of the power and then
+multiplies `acc ← acc · sq[k]` over the set bits in ascending order, starting from the lowest.
+This loop does the same multiplications in the same order: `cur = x^(2^k)` is squared once per
+bit, `acc` is the running product (`none` before the first set bit). -/
+def powLoop (d : Nat) : Nat → Nat → UG α → Option (UG α) → Option (UG α)
+  | 0, _, _, acc => acc
+  | fuel + 1, n, cur, acc =>
+    if n = 0 then acc else
+    let acc' := if n % 2 = 1 then (match acc with | none => some cur | some a => some (UG.mul d a cur))
+                else acc
+    powLoop d fuel (n / 2) (UG.mul d cur cur) acc'
 
-/-- `PowerGate.get_unitary_and_grad` for `power > 0` (square-and-multiply):
-`sq[k] = x^(2^k)`, result = product of `sq[k]` over the set bits in ascending order. -/
-def powUG (d : Nat) (x : UG α) (n : Nat) : UG α :=
-  let top := n.log2
-  let sq : List (UG α) := (List.range top).foldl (fun acc _ =>
-      match acc.getLast? with
-      | some l => acc ++ [UG.mul d l l]
-      | none => acc) [x]
-  match (bitPositions n).map (fun k => sq.getD k x) with
-  | [] => x
-  | f :: rest => rest.foldl (UG.mul d) f
+def powUG (d : Nat) (x : UG α) (n : Nat) : UG α := (powLoop d (n + 1) n x none).getD x
+
+/-- the `n+1`-fold product `x·x·…·x` under the product rule -/
+def linPow (d : Nat) (x : UG α) : Nat → UG α
+  | 0 => x
+  | n + 1 => UG.mul d (linPow d x n) x
 
 /-- Python `list.insert(idx, v)` -/
 def insertAt {β : Type} (l : List β) (idx : Nat) (v : β) : List β := l.take idx ++ v :: l.drop idx
@@ -572,7 +579,7 @@ def GVal.power [Conj α] (n : Int) (v : GVal α) : GVal α :=
    fun ps =>
      if v.np = 0 then []
      else if k = 0 then (List.range v.np).map fun _ => zeroM
-     else (powUG v.dim ⟨base.u ps, base.g ps⟩ k).g⟩
+     else (base.g ps).map fun gk => (powUG v.dim ⟨base.u ps, gk⟩ k).g⟩
 
 /-- `FrozenParameterGate(gate, frozen_params)`; `frozen` sorted by index -/
 def GVal.frozen (frozen : List (Nat × Ang α)) (v : GVal α) : GVal α :=
